@@ -315,3 +315,8 @@ def _python_level(repo: Repo, rep: Report) -> None:
         rep.ok("R12.4", "class-level dispatcher returns before any hook emission", None)
     else:
         rep.violation("R12.4", u.key, "dispatcher / hook order", "a class-level dispatcher must not run the base class's hooks before dispatching", loc=u.loc)
+
+
+_ADDENDUM = ' R12.5: the variant registry attribute is at least as specialised as the variant method name (fresh per dispatcher, or per format). R12.6: Registry.get leaves annotated_type alone for non-Annotated types, so a Discriminator written outside Optional / List stays visible.'
+EXPLANATION += _ADDENDUM
+LEVEL_TEXT += _ADDENDUM
